@@ -67,6 +67,8 @@ struct Scn {
 enum Ev {
     // target
     TBound { t: usize, inc: u32, tcp: bool, udp: bool, join: bool },
+    /// file handles registered in the host's fs when an incarnation starts (nothing is open yet)
+    TFds { t: usize, inc: u32, open: usize },
     TAccept { t: usize, inc: u32, peer: String },
     TPing { t: usize, inc: u32, id: u64 },
     // peers
@@ -123,6 +125,8 @@ const GROUP: std::net::Ipv4Addr = std::net::Ipv4Addr::new(239, 4, 4, 4);
 async fn target_program(log: Log<Ev>, t: usize, inc: u32, p: TProbe, s: Scn) -> turmoil::Result {
     let gc = p.guards.borrow()[inc as usize].clone();
     let _g = Guard::new(&gc);
+    let open = turmoil::fs::FsContext::current(|ctx| ctx.fs.open_handles.len());
+    log.push(Ev::TFds { t, inc, open });
     let lis = TcpListener::bind(("0.0.0.0", 7000)).await;
     let udp = UdpSocket::bind(("0.0.0.0", 9000)).await;
     let join = udp.as_ref().map(|u| u.join_multicast_v4(GROUP, std::net::Ipv4Addr::UNSPECIFIED).is_ok()).unwrap_or(false);
@@ -151,6 +155,13 @@ async fn target_program(log: Log<Ev>, t: usize, inc: u32, p: TProbe, s: Scn) -> 
         tokio::task::spawn_local(async move {
             let _g = g;
             let _ = sfs::create_dir_all("/data");
+            // a buffered writer whose destructor has to flush through the fs, and a plain open file
+            let _held = sfs::File::create("/data/held").ok();
+            let mut buffered = sfs::File::create("/data/buffered").ok().map(std::io::BufWriter::new);
+            if let Some(w) = buffered.as_mut() {
+                use std::io::Write;
+                let _ = w.write_all(b"buffered record");
+            }
             let mut n = 0u64;
             loop {
                 let _ = sfs::write(format!("/data/f{}", n % 4), n.to_le_bytes());
@@ -643,6 +654,7 @@ fn execute(s: &Scn) -> Exec {
         for k in 0..=s.steps {
             for (at, act) in &plan {
                 if *at == k {
+                    let _ = vcore::take_last_panic(); // nothing stale: only panics raised inside the call below count
                     let r = std::panic::catch_unwind(std::panic::AssertUnwindSafe(|| match act {
                         0 => {
                             log.push(Ev::Crash { targets: targets.clone() });
@@ -670,6 +682,9 @@ fn execute(s: &Scn) -> Exec {
                     }));
                     if let Err(p) = r {
                         panic = Some(vcore::take_last_panic().unwrap_or(vcore::panic_message(&*p)));
+                    } else if let Some(p) = vcore::take_last_panic() {
+                        // a destructor panicked while the tasks were dropped (the runtime swallows it)
+                        panic = Some(format!("panic inside Sim::crash / Sim::bounce while the host's tasks were dropped: {p}"));
                     }
                     ctl.push(sample(&mut sim, match act { 0 => "after-crash", 2 => "after-crash-t0", _ => "after-bounce" }, &probes));
                 }
@@ -695,6 +710,9 @@ fn execute(s: &Scn) -> Exec {
         }
         ctl.push(sample(&mut sim, "end", &probes));
         drop(sim);
+        // dropping the Sim drops still-running hosts outside any host context (not a crash):
+        // whatever their destructors raise there is not part of this property
+        let _ = vcore::take_last_panic();
         Exec { evs: log.take_seq(), trace: h.take(), ctl, probes, panic, t_ips }
     })
 }
@@ -1112,6 +1130,15 @@ fn check(s: &Scn, ex: &Exec, twin_iso: &[String], base_steps: u64, out: &mut Sce
             }
         }
     }
+    // a new incarnation starts with an empty file-handle table
+    for (_, _, e) in &ex.evs {
+        if let Ev::TFds { t, inc, open } = e {
+            out.count("incarnation_fd_tables_observed", 1);
+            if *open != 0 {
+                out.violate("fds-not-released", format!("C04|fds-not-released|{kind}"), format!("incarnation {inc} of t{t} starts with {open} file handles of its predecessor still registered"), desc.clone());
+            }
+        }
+    }
     // every new incarnation binds its ports again
     for (_, _, e) in &ex.evs {
         if let Ev::TBound { t, inc, tcp, udp, join } = e {
@@ -1283,6 +1310,6 @@ fn fin() -> Finish<'static> {
             "prompt = latency + 2 steps for parked readers, 2 steps for queued connectors".into(),
         ],
         min_distinct: 10,
-        required_counters: vec!["crash_points", "bounces", "peers_parked_in_read_at_crash", "peers_unblocked_promptly", "queued_connectors_refused", "handshakes_in_flight_at_crash", "stale_syns_refused", "datagrams_reaching_down_host", "rebinds_after_bounce", "down_step_observations", "isolated_pair_events_compared", "regex_multi_host_workloads", "regex_crash_with_one_target_already_down", "bulk_streams_ended_after_crash", "uploads_open_at_crash", "upload_writers_parked_on_full_window_at_crash", "uploads_with_window_in_flight_at_crash", "upload_writers_unblocked", "target_dialled_streams_open_at_crash", "target_dialled_streams_accepted_in_the_crash_step"],
+        required_counters: vec!["crash_points", "bounces", "peers_parked_in_read_at_crash", "peers_unblocked_promptly", "queued_connectors_refused", "handshakes_in_flight_at_crash", "stale_syns_refused", "datagrams_reaching_down_host", "rebinds_after_bounce", "down_step_observations", "isolated_pair_events_compared", "regex_multi_host_workloads", "regex_crash_with_one_target_already_down", "bulk_streams_ended_after_crash", "uploads_open_at_crash", "upload_writers_parked_on_full_window_at_crash", "uploads_with_window_in_flight_at_crash", "upload_writers_unblocked", "incarnation_fd_tables_observed", "target_dialled_streams_open_at_crash", "target_dialled_streams_accepted_in_the_crash_step"],
     }
 }
